@@ -1059,6 +1059,17 @@ def _one(rep, case, key, section):
 
 
 def run(rep):
+    # calls without an explicit thread count run with 2 numba threads (parallel path, but 5-10 times cheaper per call
+    # on a shared 16-core machine than 16 spinning threads); 1..16 threads come from case['threads'] and the relation
+    old_threads = numba.get_num_threads()
+    numba.set_num_threads(min(2, numba.config.NUMBA_NUM_THREADS))
+    try:
+        _run(rep)
+    finally:
+        numba.set_num_threads(old_threads)
+
+
+def _run(rep):
     import time
     torch.set_num_threads(1)
     thorough = rep.tier == 'thorough'
@@ -1070,14 +1081,28 @@ def run(rep):
         for k in tot:
             tot[k] += st.get(k, 0)
 
+    # warm-up: the first call compiles the numba kernels when the cache of this tree is cold (a changed tree always
+    # is); that time must not be taken from the share of the first section.  Shares refer to what is left afterwards.
+    t0 = time.time()
+    wc = {'pwms': [[[0.7, 0.1], [0.1, 0.7], [0.1, 0.1], [0.1, 0.1]]], 'seqs': ['ACGTAC'], 'input': 'tensor', 'eps': 1e-4, 'bin': 0.1,
+          'threshold': 0.1, 'rc': True}
+    for kw in ({}, {'inp': 'fasta'}, {'counts': True}):
+        try:
+            run_real(wc, **kw)
+        except RealError:
+            pass                            # the first real case reports it
+    table_ok(Ref(wc['pwms'][0], '+', 1e-4, 0.1, 0.1), {}, 0)      # the diagnosis helper compiles _pwm_to_mapping on its own
+    used['warm-up'] = round(time.time() - t0, 1)
+    budget = max(rep.left(), 0.5 * budget)
+
     scale_k = itertools.count()
     # (section, generator, share of the time budget, number of attempts, with relations); cheap directed families first
-    plan = [('dyadic-exact-threshold', gen_dyadic, 0.12, 900 if thorough else 60, True),
-            ('call-history', gen_history, 0.12, 500 if thorough else 24, False),
-            ('planted-every-offset', gen_planted, 0.18, 2500 if thorough else 55, True),
+    plan = [('dyadic-exact-threshold', gen_dyadic, 0.12, 1500 if thorough else 180, 'mirror'),
+            ('call-history', gen_history, 0.12, 800 if thorough else 80, False),
+            ('planted-every-offset', gen_planted, 0.18, 2500 if thorough else 120, True),
             ('directed-float32-threshold', gen_float32, 0.07, 1500 if thorough else 80, False),
-            ('scale', lambda r, t: gen_scale(r, t, next(scale_k)), 0.08, 8 if thorough else 3, False),
-            ('random', gen_random, 0.40, 6000 if thorough else 170, True)]
+            ('scale', lambda r, t: gen_scale(r, t, next(scale_k)), 0.08, 12 if thorough else 6, False),
+            ('random', gen_random, 0.40, 8000 if thorough else 330, True)]
     for section, gen, share, n, with_rel in plan:
         rng = random.Random('%s-%s-%s' % (rep.seed, rep.tier, section))
         t0 = time.time()
@@ -1091,7 +1116,10 @@ def run(rep):
             if case is None:
                 continue
             if case['kind'] == 'scan':
-                case['relations'] = pick_relations(rng, case, thorough) if with_rel else []
+                if with_rel == 'mirror':        # the only relation that adds something to the exact family
+                    case['relations'] = ['mirror'] if case['rc'] and rng.random() < 0.3 else []
+                else:
+                    case['relations'] = pick_relations(rng, case, thorough) if with_rel else []
                 if len(case['pwms']) > 1 and rng.random() < 0.3:
                     case['threads'] = rng.choice([1, 2, 4, 7, 16])
             acc(_one(rep, case, (section, k), section))
